@@ -67,6 +67,12 @@ ValidNB(nb, regs, res) ==
              \* "*" names every built-in of the pipeline
              /\ e.before = "*" => \A f \in E : (f.orig <= nb /\ f.before # "*") => P(e.id) < P(f.id)
              /\ e.after  = "*" => \A f \in E : (f.orig <= nb /\ f.after # "*")  => P(e.id) > P(f.id)
+             \* ... and every callback registered without a constraint of its own, whenever it was registered
+             \* (as long as no other callback asks to be placed relative to e itself)
+             /\ (e.before = "*" /\ \A g \in E : g.before # e.name /\ g.after # e.name)
+                   => \A f \in E : (f.before = "" /\ f.after = "") => P(e.id) < P(f.id)
+             /\ (e.after = "*" /\ \A g \in E : g.before # e.name /\ g.after # e.name)
+                   => \A f \in E : (f.before = "" /\ f.after = "") => P(e.id) > P(f.id)
         /\ \A e, f \in E : (e.orig <= nb /\ f.orig <= nb /\ e.orig < f.orig) => P(e.id) < P(f.id)
 Valid(regs, res) == ValidNB(NB, regs, res)
 
